@@ -754,7 +754,9 @@ class Visitor(ast.NodeVisitor):
                     if kw is PLACEHOLDER:
                         kwargs[PLACEHOLDER] = PLACEHOLDER
                     else:
-                        for key, val in kw.items():
+                        # (``**`` asks the mapping only for its keys and the items at those keys)
+                        for key in kw.keys():
+                            val = kw[key]
                             if key in kwargs:
                                 # Python does not merge the keyword arguments silently either.
                                 raise TypeError(
